@@ -213,7 +213,12 @@ pub fn mixed(rng: &mut Rng, profile: &'static str, cfg: &Cfg, run_seed: u64) -> 
 
         // this thread's owner of the mortal object goes away somewhere after its last use, outside any non-blocking window
         if let Some(m) = g.prog.mortal {
-            let last_use = acts.iter().rposition(|a| match a { TAct::Op(o) | TAct::Join(o) | TAct::DropHeld(o) => g.prog.ops[*o].obj == m, _ => false });
+            // (a held future_desync / after future does not need its Desync any more: the owner may be released while the future is
+            // still to be awaited or dropped, and it may be the last one)
+            let last_use = acts.iter().rposition(|a| match a {
+                TAct::Op(o) => g.prog.ops[*o].obj == m,
+                TAct::Join(o) | TAct::DropHeld(o) => g.prog.ops[*o].obj == m && g.prog.ops[*o].kind == Kind::FutSync,
+                _ => false });
             let lo = last_use.map(|i| i + 1).unwrap_or(0);
             let mut spots: Vec<usize> = (lo..=acts.len()).filter(|i| *i == acts.len() || !nb_window[*i]).collect();
             if spots.is_empty() { spots.push(acts.len()); }
@@ -456,6 +461,38 @@ pub fn t_retain(rng: &mut Rng, profile: &'static str, run_seed: u64, miri: bool)
     prog.threads.push(t1);
     prog.fire.push(FAct::WaitRet(last.unwrap()));
     prog.fire.push(FAct::Fire(g));
+    prog
+}
+
+/// C05/C14: the last owner of an object is dropped while a future_desync operation - whose future its caller still holds, and whose
+/// caller may have started it by polling (claiming the queue while its schedule entry was still there) - is suspended, with more work
+/// queued behind it. The drop has to wait for all of it; the value goes away exactly once, afterwards.
+pub fn t_drop_held_future(rng: &mut Rng, profile: &'static str, run_seed: u64, miri: bool) -> Program {
+    let mut prog = Program::new(run_seed, profile, "last_owner_dropped_while_held_future_is_suspended");
+    prog.pool = *rng.pick(&[1usize, 1, 2, 3]);
+    prog.pool_mode = *rng.pick(&[PoolMode::Warm, PoolMode::Fresh]);
+    prog.n_obj = if prog.pool > 1 && rng.chance(1, 2) { 2 } else { 1 };
+    prog.mortal = Some(0);
+    let g = prog.new_gate();
+    let mut a = vec![];
+    for _ in 0..rng.below(2) { let id = prog.add_op(0, Kind::Desync, Disp::None, vec![Step::Touch]); a.push(TAct::Op(id)); }
+    let mut body = vec![Step::Touch, Step::Gate(g), Step::Touch];
+    if rng.chance(1, 4) { body.push(Step::Retain); }
+    let fd = prog.add_op(0, Kind::FutDesync, Disp::Hold, body);
+    a.push(TAct::Op(fd));
+    for _ in 0..rng.range(1, if miri { 1 } else { 3 }) { let id = prog.add_op(0, Kind::Desync, Disp::None, vec![Step::Touch, Step::Touch]); a.push(TAct::Op(id)); }
+    // the owner goes first; the future is awaited (or abandoned) afterwards
+    a.push(TAct::ReleaseMortal);
+    a.push(if rng.chance(3, 4) { TAct::Join(fd) } else { TAct::DropHeld(fd) });
+    prog.threads.push(a);
+    // a second owner, released at some point while all that is going on
+    let mut b = vec![];
+    if rng.chance(1, 2) { let id = prog.add_op(0, Kind::Desync, Disp::None, vec![Step::Touch]); b.push(TAct::Op(id)); }
+    b.push(TAct::ReleaseMortal);
+    prog.threads.push(b);
+    // sometimes the pool is busy elsewhere for a moment
+    if prog.n_obj == 2 { let id = prog.add_op(1, Kind::Desync, Disp::None, vec![Step::Touch, Step::Pause, Step::Touch]); prog.threads.push(vec![TAct::Op(id)]); }
+    finish_firer(rng, &mut prog, 0);
     prog
 }
 
@@ -771,12 +808,12 @@ pub fn generate(profile: &'static str, rng: &mut Rng, run_seed: u64, miri: bool)
         "C11" => if r < 12 { t_pipe_chain(rng, profile, run_seed, miri) } else { t_pipe(rng, profile, run_seed, miri, false, false) },
         "C12" => t_pipe(rng, profile, run_seed, miri, true, false),
         "C16" => t_pipe(rng, profile, run_seed, miri, true, true),
-        "C05" => if r < 20 { t_pipe(rng, profile, run_seed, miri, false, false) } else { mixed(rng, profile, &cfg, run_seed) },
+        "C05" => if r < 20 { t_pipe(rng, profile, run_seed, miri, false, false) } else if r < 35 { t_drop_held_future(rng, profile, run_seed, miri) } else { mixed(rng, profile, &cfg, run_seed) },
         "C14" if r >= 100 - (if miri { 40 } else { 12 }) => t_cancel_fs(rng, profile, run_seed, miri),
         "C08" if r >= 85 => t_cancel_fs(rng, profile, run_seed, miri),
         "C08" if r >= 73 => t_retain(rng, profile, run_seed, miri),
         "C01" if r >= 92 => t_cancel_fs(rng, profile, run_seed, miri),
-        "C14" => if r < 10 { t_pipe(rng, profile, run_seed, miri, true, false) } else if r < 20 { t_pipe(rng, profile, run_seed, miri, false, false) } else if r < 30 { t_holds(rng, profile, run_seed, miri, true) } else if r < 42 { t_try_wake_window(rng, profile, run_seed, miri) } else if r < 52 { t_stale_thread_waker(rng, profile, run_seed, miri) } else if r < 58 { t_retain(rng, profile, run_seed, miri) } else { mixed(rng, profile, &cfg, run_seed) },
+        "C14" => if r < 10 { t_pipe(rng, profile, run_seed, miri, true, false) } else if r < 20 { t_pipe(rng, profile, run_seed, miri, false, false) } else if r < 30 { t_holds(rng, profile, run_seed, miri, true) } else if r < 42 { t_try_wake_window(rng, profile, run_seed, miri) } else if r < 52 { t_stale_thread_waker(rng, profile, run_seed, miri) } else if r < 58 { t_retain(rng, profile, run_seed, miri) } else if r < 60 { t_drop_held_future(rng, profile, run_seed, miri) } else { mixed(rng, profile, &cfg, run_seed) },
         "C01" => if r < 8 { t_pipe(rng, profile, run_seed, miri, false, false) } else if r < 16 { t_pipe(rng, profile, run_seed, miri, true, false) } else if r < 24 { t_try_wake_window(rng, profile, run_seed, miri) } else if r < 30 { t_stale_thread_waker(rng, profile, run_seed, miri) } else if r < 36 { t_retain(rng, profile, run_seed, miri) } else { mixed(rng, profile, &cfg, run_seed) },
         "C06" if r < 8 => t_stale_thread_waker(rng, profile, run_seed, miri),
         _ => mixed(rng, profile, &cfg, run_seed),
